@@ -6,6 +6,7 @@ import (
 	"strings"
 
 	"github.com/alttpo/snes/emulator/bus"
+	"github.com/alttpo/snes/emulator/memory"
 
 	"verifharness/internal/drv"
 	"verifharness/internal/prng"
@@ -29,6 +30,50 @@ func (m *logMem) Shutdown()              {}
 func (m *logMem) Size() uint32           { return 0 }
 func (m *logMem) Clear()                 {}
 func (m *logMem) Dump(uint32) []byte     { return nil }
+
+// logRAM / logROM: the library's own memory.RAM / memory.ROM (embedded, so that every method they have or gain — including
+// optional interfaces a bus might look for — is promoted) with address logging on Read / Write. The backing buffer starts
+// `delta` bytes before the attached range (offsets that are not multiples of 16) and holds Hash(id, address), i.e. the same
+// contents as logMem, so the model and the oracle need not tell them apart.
+type logRAM struct {
+	memory.RAM
+	id  uint32
+	log *[]string
+}
+
+func (m logRAM) Read(a uint32) byte {
+	*m.log = append(*m.log, fmt.Sprintf("m%x:%x", m.id, a))
+	return m.RAM.Read(a)
+}
+func (m logRAM) Write(a uint32, v byte) { *m.log = append(*m.log, fmt.Sprintf("m%x:%x", m.id, a)) }
+
+type logROM struct {
+	*memory.ROM
+	id  uint32
+	log *[]string
+}
+
+func (m logROM) Read(a uint32) byte {
+	*m.log = append(*m.log, fmt.Sprintf("m%x:%x", m.id, a))
+	return m.ROM.Read(a)
+}
+func (m logROM) Write(a uint32, v byte) { *m.log = append(*m.log, fmt.Sprintf("m%x:%x", m.id, a)) }
+
+func realMemory(id, s, e uint32, log *[]string) memory.Memory {
+	delta := (s >> 4) % 13
+	if delta > s {
+		delta = s
+	}
+	off := s - delta
+	buf := make([]byte, e-off+1)
+	for i := range buf {
+		buf[i] = prng.Hash(uint64(id), off+uint32(i))
+	}
+	if id == 5 {
+		return logRAM{memory.NewRAM(buf, off), id, log}
+	}
+	return logROM{memory.NewROM(buf, off), id, log}
+}
 
 type busOp struct {
 	kind       byte // A R W T D   (T = EaRead24_wrap at bank s>>16, offset s&0xFFFF)
@@ -75,7 +120,11 @@ func execBusOps(ops []busOp) []string {
 			}()
 			switch o.kind {
 			case 'A':
-				err := b.Attach(&logMem{o.m, &log}, "m", o.s, o.e)
+				var mm memory.Memory = &logMem{o.m, &log}
+				if o.m >= 5 && o.s%16 == 0 && (o.e+1)%16 == 0 && o.e >= o.s && o.e <= 0xFFFFFF && o.e-o.s < 1<<16 {
+					mm = realMemory(o.m, o.s, o.e, &log) // ids 5 and 6 are the library's own RAM / ROM devices
+				}
+				err := b.Attach(mm, "m", o.s, o.e)
 				switch {
 				case err == nil:
 					out[i] = "ok"
@@ -422,7 +471,7 @@ func runBus() {
 	rep.Distinct = int64(len(distinct))
 	rep.CountN("histories", int64(len(hists)))
 	rep.Rule = "random Attach/read/write/24-bit-read/dump histories (aligned, misaligned, overlapping, adjacent, re-attached, empty ranges; dumps with every start/end alignment " +
-		"across memories and holes; windows at $000000, random and $FFFC00) run on the real bus.Bus with address-logging memories, on the Lean model and on a Go oracle of the property; " +
+		"across memories and holes; memories 5 and 6 are the library's own memory.RAM / memory.ROM with offsets that are not multiples of 16; windows at $000000, random and $FFFC00) run on the real bus.Bus with address-logging memories, on the Lean model and on a Go oracle of the property; " +
 		"evaluations = operations executed; distinct_nontrivial = distinct history shapes (sequence of op kind + outcome class)"
 	rep.Emit()
 }
